@@ -84,6 +84,8 @@ func runC10(cs *vrt.Case) {
 	triples := cs.Idx%4 == 3
 	if triples {
 		P = 2 + (cs.Idx/4)%4
+	} else {
+		P = 2 + (cs.Idx%4+cs.Idx/4)%4 // protocol runs rotate through 2..5 parties as well
 	}
 	var src string
 	var prog *mpclgen.Program
@@ -110,6 +112,17 @@ func runC10(cs *vrt.Case) {
 			what = "generated"
 		}
 		params := func() *utils.Params { p := utils.NewParams(); p.Target = utils.TargetGMW; return p }
+		// a generated program that compiles to more than 200000 gates is
+		// replaced by another draw (twice at most) instead of wasting the case
+		for try := 0; prog != nil && try < 2; try++ {
+			c, err, pan := compileMPCL(src, params(), nil)
+			if err != nil || pan != nil || c == nil || c.NumGates <= 200000 {
+				break
+			}
+			cs.Count("programs_too_large_redrawn", 1)
+			prog = mpclgen.Generate(r, mpclgen.Config{Args: P, ScalarArgs: true, Funcs: true, Loops: true, NoConst: true, MaxStmts: 3, Widths: []int{1, 2, 3, 7, 8, 9, 15, 16, 17}})
+			src = prog.Src
+		}
 		for i := 0; i < P; i++ {
 			c, err, pan := compileMPCL(src, params(), nil)
 			if err != nil || pan != nil {
